@@ -1,6 +1,6 @@
 (* TEMPORARY - replaced at merge.  Copy of PropertiesB.v (check parses Properties.v itself). *)
 From ZV.Common Require Import Base.
-From ZV.C01 Require Import ModelLz ModelRans ModelFse ProofsRans ProofsLz.
+From ZV.C01 Require Import ModelLz ModelRans ModelFse ProofsRans ProofsRansPar ProofsRansNorm ProofsLz.
 Open Scope N_scope.
 
 (* one rANS step: for a state in [L, 256 L) and a symbol with a slot, the encoder's new state is again in
@@ -39,6 +39,48 @@ Check rans_roundtrip :
   forall t d bytes, wf_table t -> N.of_nat (length d) <= MAX_DECOMPRESSED_SIZE ->
   encode 1 t d = Some bytes -> decode 1 t bytes (length d) = Some d.
 Print Assumptions rans_roundtrip.
+
+(* Rans64Encoder<P> / Rans64Decoder<P> with n interleaved streams (the code instantiates n = 1, 2, 4, 8):
+   every length, also lengths not divisible by n and lengths below n (single-stream fallback on both sides) *)
+Theorem parallel_roundtrip :
+  forall n t d bytes, (1 <= n)%nat -> wf_table t -> N.of_nat (length d) <= MAX_DECOMPRESSED_SIZE ->
+  encode n t d = Some bytes -> decode n t bytes (length d) = Some d.
+Proof. exact parallel_roundtrip_proof. Qed.
+Check parallel_roundtrip :
+  forall n t d bytes, (1 <= n)%nat -> wf_table t -> N.of_nat (length d) <= MAX_DECOMPRESSED_SIZE ->
+  encode n t d = Some bytes -> decode n t bytes (length d) = Some d.
+Print Assumptions parallel_roundtrip.
+
+(* Rans64Encoder::normalize_frequencies (three passes, model of coq/C02/Model.v): the result sums to TOTFREQ,
+   every present symbol keeps at least one slot, absent symbols get none *)
+Theorem normalize_wf :
+  forall f t, nlen f <= 4096 -> ZV.C02.Model.normalize_frequencies f = Some t ->
+  length t = length f /\ sum_list t = TOTFREQ /\
+  (forall i, 0 < nth i f 0 -> 1 <= nth i t 0) /\ (forall i, nth i f 0 = 0 -> nth i t 0 = 0).
+Proof. exact normalize_wf_proof. Qed.
+Check normalize_wf :
+  forall f t, nlen f <= 4096 -> ZV.C02.Model.normalize_frequencies f = Some t ->
+  length t = length f /\ sum_list t = TOTFREQ /\
+  (forall i, 0 < nth i f 0 -> 1 <= nth i t 0) /\ (forall i, nth i f 0 = 0 -> nth i t 0 = 0).
+Print Assumptions normalize_wf.
+
+Theorem normalize_defined :
+  forall f, (exists i, 0 < nth i f 0) -> exists t, ZV.C02.Model.normalize_frequencies f = Some t.
+Proof. exact normalize_defined_proof. Qed.
+Check normalize_defined :
+  forall f, (exists i, 0 < nth i f 0) -> exists t, ZV.C02.Model.normalize_frequencies f = Some t.
+Print Assumptions normalize_defined.
+
+(* Rans64Encoder::new: the table it builds from any counts is well formed (so the round-trip theorems apply)
+   and covers every payload its counts cover - trained on the same data, nothing is ever refused or lost *)
+Theorem table_of_counts_wf :
+  forall raw t, nlen raw <= 4096 -> table_of_counts raw = Some t ->
+  wf_table t /\ forall d, covers raw d -> covers t d.
+Proof. exact table_of_counts_wf_proof. Qed.
+Check table_of_counts_wf :
+  forall raw t, nlen raw <= 4096 -> table_of_counts raw = Some t ->
+  wf_table t /\ forall d, covers raw d -> covers t d.
+Print Assumptions table_of_counts_wf.
 
 (* a symbol without a slot is refused, never substituted; covered payloads are always encoded *)
 Theorem rans_encode_refuses :
